@@ -1,8 +1,10 @@
 SPECIFICATION Spec
 CONSTANTS
   H = 2
+  NBufs = 2
+  Design = "own"
   MaxBlocks = 5
   ReadSizes = {0, 1, 2, 3, 4, 5, 6, 7, 8, 9, 10, 11, 12}
-INVARIANTS TypeOK ImplInv
-PROPERTIES Refines AbsErrorConsumesNothing AbsContiguous AbsFailsExactlyBeyondLimit AbsZeroReadIsNoop
+INVARIANTS TypeOK ImplInv ReaderOwnsItsState
+PROPERTIES Refines AbsErrorConsumesNothing AbsContiguous AbsFailsExactlyBeyondLimit AbsZeroReadIsNoop AbsScribbleIsInvisible ScribbleKeepsReaderState
 CHECK_DEADLOCK FALSE
